@@ -31,6 +31,8 @@ type Node struct {
 	Body   Body   `json:"body"`
 	Native string `json:"native,omitempty"` // subset of "isct": natively implemented paradigms ("" = "i")
 	Chunks []int  `json:"chunks,omitempty"` // how a streaming form splits its output (sizes-1)
+	InKey  string `json:"inKey,omitempty"`  // compose.WithInputKey: the lambda takes input[InKey] (a string)
+	OutKey string `json:"outKey,omitempty"` // compose.WithOutputKey: the lambda returns a string, seen as {OutKey: s}
 }
 
 type Branch struct {
@@ -201,7 +203,7 @@ func Build(g *Graph, prefix string, bo *BuildOpts) (*compose.Graph[M, M], error)
 			if bo != nil && bo.Produce != nil {
 				produce = func(chunks []M) *schema.StreamReader[M] { return bo.Produce(path, chunks) }
 			}
-			err = cg.AddLambdaNode(n.Key, nativeLambda(f, n.Native, n.Chunks, produce))
+			err = addKeyedLambda(cg, n, f, produce)
 		}
 		if err != nil {
 			return nil, fmt.Errorf("add node %s: %w", n.Key, err)
